@@ -26,6 +26,9 @@ pub struct Cfg {
     script: Script,
     /// with_timeout(Duration::MAX): checks never time out ("slow" results simply arrive late)
     huge_timeout: bool,
+    /// selections per accessor and check interval (n = one lap per interval; other values make the
+    /// eligible set change between the selections of one lap)
+    picks_per_tick: usize,
 }
 
 const INTERVAL_US: u64 = 20_000;
@@ -55,7 +58,7 @@ pub fn gen(rng: &mut Prng) -> Cfg {
         }
         script.push(v);
     }
-    Cfg { n, fail_thr: if defaults { 2 } else { rng.range(1, 4) as u32 }, succ_thr: if defaults { 1 } else { rng.range(1, 4) as u32 }, defaults, strategy: rng.below(7) as u8, ticks, script, huge_timeout: rng.chance(0.06) }
+    Cfg { n, fail_thr: if defaults { 2 } else { rng.range(1, 4) as u32 }, succ_thr: if defaults { 1 } else { rng.range(1, 4) as u32 }, defaults, strategy: rng.below(7) as u8, ticks, script, huge_timeout: rng.chance(0.06), picks_per_tick: if rng.chance(0.4) { *rng.pick(&[1usize, 1, 2, 3, n + 1]) } else { n } }
 }
 
 fn st(s: HealthStatus) -> u8 {
@@ -133,7 +136,7 @@ pub fn run(cfg: &Cfg, seed: u64) -> (Arc<World>, Vec<Obs>, Vec<usize>) {
             _ => SelectionStrategy::Custom(Arc::new(|s: &[HealthStatus]| if s.len() % 2 == 0 { None } else { Some(0) })),
         });
         let wrapper = b.build();
-        let (n, ticks) = (cfg.n, cfg.ticks);
+        let (n, ticks, ppt) = (cfg.n, cfg.ticks, cfg.picks_per_tick);
         let restart = seed % 5 == 0;
         let alternate = (seed >> 3) % 3 == 0;
         // with an unbounded timeout the slow check (11 ms) is not cut off: observe after it
@@ -158,15 +161,15 @@ pub fn run(cfg: &Cfg, seed: u64) -> (Arc<World>, Vec<Obs>, Vec<usize>) {
                     let mut picks = vec![];
                     if alternate {
                         // a caller that uses both accessors in turn
-                        for _ in 0..n {
+                        for _ in 0..ppt {
                             picks.push((1u8, wrapper.get_usable().await));
                             picks.push((0u8, wrapper.get_healthy().await));
                         }
                     } else {
-                        for _ in 0..n {
+                        for _ in 0..ppt {
                             picks.push((1u8, wrapper.get_usable().await));
                         }
-                        for _ in 0..n {
+                        for _ in 0..ppt {
                             picks.push((0u8, wrapper.get_healthy().await));
                         }
                     }
@@ -227,6 +230,8 @@ pub fn judge(cfg: &Cfg, obs: &[Obs]) -> Report {
     let mut s = vec![0u32; cfg.n];
     let mut flips = 0u64;
     let mut timeouts = 0u64;
+    let mut wait_healthy = vec![0usize; cfg.n];
+    let mut wait_usable = vec![0usize; cfg.n];
     let strat = ["first", "round-robin", "prefer-healthy", "custom-last", "custom-none", "random", "custom-first-candidate"][cfg.strategy as usize];
     'outer: for o in obs {
         for r in 0..cfg.n {
@@ -302,6 +307,26 @@ pub fn judge(cfg: &Cfg, obs: &[Obs]) -> Report {
             }
         }
         if cfg.strategy == 1 {
+            // Rotation over a *changing* eligible set: a resource that is eligible at n consecutive
+            // selections of one accessor (n = number of resources, i.e. one full lap) must have been
+            // returned by one of them, whatever the others did in between.
+            for (which, pick) in &o.picks {
+                let (elig, name, wait) = if *which == 0 { (&healthy, "get_healthy", &mut wait_healthy) } else { (&usable, "get_usable", &mut wait_usable) };
+                for r in 0..cfg.n {
+                    if elig.contains(&r) && *pick != Some(r) {
+                        wait[r] += 1;
+                        if wait[r] >= cfg.n && rep.violations.is_empty() {
+                            rep.violate(
+                                format!("C18:{strat}:eligible-resource-starved"),
+                                format!("tick {}: res{r} was eligible at the last {} {name} selections ({} resources, {} selections per interval) and was returned by none of them", o.tick, wait[r], cfg.n, cfg.picks_per_tick),
+                            );
+                        }
+                    } else {
+                        wait[r] = 0;
+                    }
+                }
+                rep.max("longest_wait_of_an_eligible_resource", *wait.iter().max().unwrap_or(&0) as u64);
+            }
             for (elig, got, name) in [(&usable, &got_usable, "get_usable"), (&healthy, &got_healthy, "get_healthy")] {
                 if !elig.is_empty() && got.len() == cfg.n {
                     // n consecutive selections over a stable eligible set of size m <= n: every eligible
